@@ -423,7 +423,7 @@ func (e *Engine) loopIntrinsic(st *State, base string, args []Value, pos token.P
 		case phPreserve:
 			e.oblige(st, lf.prefix+".preserved", KindInv, args[0].L[0], pos, "loop invariant is preserved by the body")
 		default:
-			e.assume(st, args[0].L[0])
+			e.assumeStated(st, args[0].L[0])
 		}
 		return nil, st, true
 	case "vStep":
